@@ -272,52 +272,82 @@ namespace embedded_pairing::core {
         word_t shift_right(const BigInt<bits>& a, unsigned int amt) {
             unsigned int word_offset = amt / (sizeof(word_t) * 8);
             unsigned int bit_offset = amt % (sizeof(word_t) * 8);
-            word_t shift_in = 0;
-            for (int i = word_length - word_offset - 1; i != -1; i--) {
-                /*
-                 * It turns out that the code:
-                 * word_t new_shift_in = a.words[i+word_offset]
-                 *     << ((sizeof(word_t) *8) - bit_offset);
-                 * is actually WRONG. If bit_offset == 0, it may, e.g.,
-                 * take a uint64_t and shift it left by 64 bits, which is
-                 * undefined behavior. On my computer this actually is the
-                 * same a shifting left by 0 (i.e., leaves the original
-                 * word unchanged).
-                 * The solution is to shift in two stages, to handle this
-                 * edge case.
-                 */
-                word_t new_shift_in = a.words[i + word_offset] << ((sizeof(word_t) * 8) - bit_offset - 1);
-                new_shift_in <<= 1;
+
+            /*
+             * It turns out that the code:
+             * word_t new_shift_in = a.words[i+word_offset]
+             *     << ((sizeof(word_t) *8) - bit_offset);
+             * is actually WRONG. If bit_offset == 0, it may, e.g.,
+             * take a uint64_t and shift it left by 64 bits, which is
+             * undefined behavior. On my computer this actually is the
+             * same a shifting left by 0 (i.e., leaves the original
+             * word unchanged).
+             * The solution is to shift in two stages, to handle this
+             * edge case.
+             */
+
+            /* The bits shifted out of the lowest word of the result. */
+            word_t shift_out = 0;
+            if (word_offset < (unsigned int) word_length) {
+                shift_out = a.words[word_offset] << ((sizeof(word_t) * 8) - bit_offset - 1);
+                shift_out <<= 1;
+            }
+
+            /*
+             * Go from the least significant word up: word i only depends on
+             * words i + word_offset and above of a, so this is correct even
+             * if this and a are aliased.
+             */
+            for (int i = 0; i + (int) word_offset < word_length; i++) {
+                word_t shift_in = 0;
+                if (i + (int) word_offset + 1 != word_length) {
+                    shift_in = a.words[i + word_offset + 1] << ((sizeof(word_t) * 8) - bit_offset - 1);
+                    shift_in <<= 1;
+                }
                 this->words[i] = shift_in | (a.words[i + word_offset] >> bit_offset);
-                shift_in = new_shift_in;
             }
 
             /* We wait until the end, in case this and a are aliased. */
-            for (int i = 0; i != word_offset; i++) {
+            for (int i = 0; i != (int) word_offset && i != word_length; i++) {
                 this->words[word_length - i - 1] = 0;
             }
 
-            return shift_in;
+            return shift_out;
         }
 
         word_t shift_left(const BigInt<bits>& a, unsigned int amt) {
             unsigned int word_offset = amt / (sizeof(word_t) * 8);
             unsigned int bit_offset = amt % (sizeof(word_t) * 8);
-            word_t shift_in = 0;
-            for (int i = word_offset; i != word_length; i++) {
-                /* See comment above in shift_right. */
-                word_t new_shift_in = a.words[i - word_offset] >> ((sizeof(word_t) * 8) - bit_offset - 1);
-                new_shift_in >>= 1;
+
+            /* See comment above in shift_right. */
+
+            /* The bits shifted out of the highest word of the result. */
+            word_t shift_out = 0;
+            if (word_offset < (unsigned int) word_length) {
+                shift_out = a.words[word_length - word_offset - 1] >> ((sizeof(word_t) * 8) - bit_offset - 1);
+                shift_out >>= 1;
+            }
+
+            /*
+             * Go from the most significant word down: word i only depends on
+             * words i - word_offset and below of a, so this is correct even
+             * if this and a are aliased.
+             */
+            for (int i = word_length - 1; i >= (int) word_offset; i--) {
+                word_t shift_in = 0;
+                if (i != (int) word_offset) {
+                    shift_in = a.words[i - word_offset - 1] >> ((sizeof(word_t) * 8) - bit_offset - 1);
+                    shift_in >>= 1;
+                }
                 this->words[i] = (a.words[i - word_offset] << bit_offset) | shift_in;
-                shift_in = new_shift_in;
             }
 
             /* We wait until the end, in case this and a are aliased. */
-            for (int i = 0; i != word_offset; i++) {
+            for (int i = 0; i != (int) word_offset && i != word_length; i++) {
                 this->words[i] = 0;
             }
 
-            return shift_in;
+            return shift_out;
         }
 
         // void multiply(const BigInt<bits/2>& __restrict a, const BigInt<bits/2>& __restrict b) {
